@@ -690,6 +690,51 @@ def rule_r11(ctx) -> RuleResult:
     return rr
 
 
+def rule_r12(ctx) -> RuleResult:
+    """No placeholder character survives finalisation.  The texts the `_unexpanded_*` formatters
+    return can contain further cookies (arguments are encoded innermost first), so
+    `_finalize_expand` has to substitute until nothing changes -- the substitution sits in a loop
+    left only when a pass changed nothing -- or every formatter result is itself substituted again."""
+    rr = RuleResult("C01.R12", "finalisation substitutes cookies until a fixed point is reached", min_instances=1)
+    fname = "core.Wtp._finalize_expand"
+    fn = ctx.fn(fname)
+    subs = [c for c in walk_no_nested(fn) if isinstance(c, ast.Call) and isinstance(c.func, ast.Attribute) and c.func.attr == "sub"
+            and "MAGIC_RE" in unparse(c.func.value) and c.args and unparse(c.args[0]) == "magic_repl"]
+    if not subs:
+        raise AnalysisError("_finalize_expand: MAGIC_RE_PATTERN.sub(magic_repl, ...) vanished")
+    parents = ctx.index.mod("core").parents
+    looped = False
+    for c in subs:
+        n = c
+        while n in parents and n is not fn:
+            n = parents[n]
+            if isinstance(n, ast.While):
+                # exit only through a comparison of the text before and after the pass
+                brk = [b for b in ast.walk(n) if isinstance(b, ast.If) and any(isinstance(x, ast.Break) for x in b.body)
+                       and isinstance(b.test, ast.Compare) and isinstance(b.test.ops[0], ast.Eq)]
+                cond_cmp = isinstance(n.test, ast.Compare) and isinstance(n.test.ops[0], ast.NotEq)
+                if brk or cond_cmp:
+                    looped = True
+    repl = ctx.fn(fname + ".magic_repl")
+    fmt_returns = [r for r in walk_no_nested(repl) if isinstance(r, ast.Return) and r.value is not None
+                   and any(isinstance(c, ast.Call) and isinstance(c.func, ast.Attribute) and c.func.attr.startswith("_unexpanded_") for c in ast.walk(r.value))]
+    all_recursive = bool(fmt_returns) and all(
+        isinstance(r.value, ast.Call) and isinstance(r.value.func, ast.Attribute) and r.value.func.attr == "sub"
+        and r.value.args and unparse(r.value.args[0]) == "magic_repl" for r in fmt_returns)
+    if looped:
+        rr.ok(fname, "substitution repeated until a pass changes nothing", {"formatter_returns": len(fmt_returns)})
+    elif all_recursive:
+        rr.ok(fname, "every formatter result is substituted again by magic_repl", {"formatter_returns": len(fmt_returns)})
+    else:
+        plain = [r for r in fmt_returns if not (isinstance(r.value, ast.Call) and isinstance(r.value.func, ast.Attribute) and r.value.func.attr == "sub")]
+        rr.bad(Finding("C01.R12", "src/wikitextprocessor/core.py", fname, unparse(subs[0])[:70],
+                       "cookies are substituted in a single pass, but {} of the {} formatter results are returned without being substituted again "
+                       "(e.g. `{}`): a link or external link whose argument holds a template leaves a private-use placeholder character in "
+                       "the tree (inside <pre>, in argument lists)".format(len(plain), len(fmt_returns), unparse(plain[0])[:50] if plain else "?"),
+                       subs[0].lineno))
+    return rr
+
+
 def run(ctx) -> list:
     return [rule_r1(ctx), rule_r2(ctx), rule_r3(ctx), rule_r4(ctx), rule_r5(ctx), rule_r6(ctx), rule_r7(ctx), rule_r8(ctx),
-            rule_r9(ctx), rule_r10(ctx), rule_r11(ctx)]
+            rule_r9(ctx), rule_r10(ctx), rule_r11(ctx), rule_r12(ctx)]
